@@ -48,6 +48,7 @@ ASSUMPTIONS = ["third-party libraries (coincurve, PyNaCl, cbor2, ecdsa) raise wh
 BUDGET = {"quick": 200, "thorough": 1500}
 
 SEED = bytes(range(1, 65))
+BYRON_HD_KEY = None
 ENTRIES = {}     # name -> dict(kind, call, seeds, slow)
 
 
@@ -108,6 +109,8 @@ def build():
         E(nm + ".DecodeAddr", "str", (lambda d_: lambda s: d_.DecodeAddr(s, net_tag=AdaShelleyAddrNetworkTags.MAINNET))(d), [a])
     byron = CardanoByronLegacy.FromSeed(SEED[:32])
     ba = byron.GetAddress(0, 0)
+    global BYRON_HD_KEY
+    BYRON_HD_KEY = byron.HdPathKey()
     E("AdaByronAddrDecoder.DecodeAddr", "str", lambda s: AdaByronAddrDecoder.DecodeAddr(s), [ba,
       Bip44.FromSeed(SEED, Bip44Coins.CARDANO_BYRON_ICARUS).DeriveDefaultPath().PublicKey().ToAddress()])
     E("AdaByronAddrDecoder.DecodeAddr[legacy]", "str",
@@ -440,6 +443,171 @@ def bech32_family_mutations(s, rng):
     return out
 
 
+# ---- Cardano Byron addresses: CBOR-level mutations under a VALID CRC-32, encoded by an own minimal RFC 8949 encoder
+#      (not cbor2: the library's decoder is cbor2, the inputs must not depend on it)
+class CTag:
+    def __init__(self, tag, value):
+        self.tag, self.value = tag, value
+
+
+class CSimple:
+    def __init__(self, v):
+        self.v = v
+
+
+class CRaw:
+    """already encoded bytes spliced in as one item"""
+    def __init__(self, b):
+        self.b = b
+
+
+def _cb_head(major, n):
+    if n < 24:
+        return bytes([major << 5 | n])
+    for info, w in ((24, 1), (25, 2), (26, 4), (27, 8)):
+        if n < 1 << (8 * w):
+            return bytes([major << 5 | info]) + n.to_bytes(w, "big")
+    raise ValueError(n)
+
+
+def cb(o):
+    if isinstance(o, CRaw):
+        return o.b
+    if isinstance(o, CTag):
+        return _cb_head(6, o.tag) + cb(o.value)
+    if isinstance(o, CSimple):
+        return bytes([0xe0 | o.v]) if o.v < 24 else bytes([0xf8, o.v])
+    if o is None:
+        return b"\xf6"
+    if o is True or o is False:
+        return b"\xf5" if o else b"\xf4"
+    if isinstance(o, int):
+        return _cb_head(0, o) if o >= 0 else _cb_head(1, -1 - o)
+    if isinstance(o, (bytes, bytearray)):
+        return _cb_head(2, len(o)) + bytes(o)
+    if isinstance(o, str):
+        e = o.encode("utf-8")
+        return _cb_head(3, len(e)) + e
+    if isinstance(o, (list, tuple)):
+        return _cb_head(4, len(o)) + b"".join(cb(x) for x in o)
+    if isinstance(o, dict):
+        return _cb_head(5, len(o)) + b"".join(cb(k) + cb(v) for k, v in o.items())
+    raise TypeError(type(o))
+
+
+# items on which cbor2's own semantic-tag decoders raise something that is no CBORDecodeError (decimal fraction /
+# bigfloat with an ill-typed or huge exponent / mantissa): TypeError, OverflowError, decimal.InvalidOperation, decimal.Overflow
+CBOR2_POISON = [CTag(4, [0, None]), CTag(4, [0, b"a"]), CTag(4, [0, "a"]), CTag(4, [2 ** 64 - 1, 0]), CTag(4, [-2 ** 64, 0]),
+                CTag(5, [1, "a"]), CTag(5, [2 ** 64 - 1, 0]), CTag(4, ["a", 0]), CTag(4, [b"a", 0])]
+
+
+def byron_addr(payload_obj, tag=24, crc=None, outer=None):
+    """Base58(CBOR [tag(payload bytes), crc32(payload bytes)]) -- the CRC is valid unless given."""
+    import binascii
+    p = payload_obj if isinstance(payload_obj, (bytes, bytearray)) else cb(payload_obj)
+    o = [CTag(tag, bytes(p)), binascii.crc32(p) if crc is None else crc] if outer is None else outer
+    return Base58Encoder.Encode(cb(o))
+
+
+def byron_payload_mutations(s, rng):
+    import binascii
+    out = []
+    try:
+        dec = AdaByronAddrDecoder.DecodeAddr(s)
+    except Exception:  # noqa
+        return out
+    rh, enc = dec[:28], dec[28:]
+    a_ok = {1: cb(enc)} if enc else {}
+    attrs = [{}, a_ok, {1: cb(bytes(range(40)))}, {1: 5}, {1: "a"}, {1: [1]}, {1: None}, {1: True}, {2: 5}, {2: "x"}, {2: None},
+             {2: cb(764824073)}, {1: cb(enc or b"x"), 2: cb(7)}, {1: cb(5)}, {1: cb("xx")}, {1: cb([1, 2])}, {1: cb(None)},
+             {1: b"\xff"}, {1: b""}, {1: b"\x58"}, {1: b"\x5f\x41a\xff"}, {1: cb(enc or b"x") + b"\x00"}, {3: b""}, {1: cb(b""), 2: 7},
+             {1: cb(b""), 2: cb(1), 3: cb(2)}, {"1": cb(b"")}, {0: b""}, {1: cb(CTag(2, b"\x01"))}, {2: cb("x")}, {2: b"\xff"},
+             [], 0, b"", "a", None, {1: {}}, {(): b""}]
+    for p in CBOR2_POISON[:4]:
+        attrs += [{1: cb(p)}, {2: cb(p)}, {1: p}, p]
+    for a in attrs:
+        for ty in (0, 1):
+            out.append(byron_addr([rh, a, ty]))
+    for ty in (2, 7, 23, 24, -1, 2 ** 32, 2 ** 64 - 1, True, False, None, "0", b"\x00", [0], CRaw(b"\xf9\x00\x00"), CRaw(b"\xfb" + bytes(8))):
+        out.append(byron_addr([rh, a_ok, ty]))
+    for r in (rh[:27], rh + b"\x00", b"", rh.hex(), 5, None, [rh], CTag(2, rh), rh[:27] + b"\xff"):
+        out.append(byron_addr([r, a_ok, 0]))
+    for pl in ([rh, a_ok], [rh, a_ok, 0, 0], [], 5, b"x", "x", {0: rh}, None, [[rh, a_ok, 0]], CTag(24, [rh, a_ok, 0])):
+        out.append(byron_addr(pl))
+    pl = cb([rh, a_ok, 0])
+    crc = binascii.crc32(pl)
+    for p in CBOR2_POISON:
+        out.append(byron_addr(p))                                   # payload that is a poison item (valid CRC)
+        out.append(byron_addr(pl, outer=[CTag(24, pl), p]))          # ... in place of the CRC
+        out.append(byron_addr(pl, outer=p))                          # ... in place of the whole address
+        out.append(byron_addr(pl, outer=[p, crc]))
+        out.append(byron_addr(pl, outer=[CTag(24, p), crc]))
+    # outer structure
+    for o in ([CTag(24, 5), 0], [CTag(24, 5), crc], [CTag(24, "abc"), 0], [CTag(24, [1]), 0], [CTag(24, None), 0], [CTag(24, {}), 0],
+              [CTag(24, CTag(24, pl)), crc], [CTag(25, pl), crc], [CTag(0, pl), crc], [CTag(2 ** 32, pl), crc], [pl, crc],
+              [CTag(24, pl)], [CTag(24, pl), crc, 0], [CTag(24, pl), crc ^ 1], [CTag(24, pl), -crc - 1], [CTag(24, pl), True],
+              [CTag(24, pl), str(crc)], [CTag(24, pl), 2 ** 64 - 1], [CTag(24, pl), None], [CTag(24, pl), CRaw(b"\xfb" + bytes(8))],
+              {0: CTag(24, pl)}, CTag(24, pl), pl, crc, [], [[CTag(24, pl), crc]], CTag(55799, [CTag(24, pl), crc]),
+              [CTag(24, pl[:-1]), binascii.crc32(pl[:-1])], [CTag(24, pl + b"\x00"), binascii.crc32(pl + b"\x00")],
+              [CTag(24, b""), 0], CRaw(b"\x9f" + cb(CTag(24, pl)) + cb(crc) + b"\xff"), CRaw(cb([CTag(24, pl), crc]) + b"\x00")):
+        out.append(byron_addr(pl, outer=o))
+    return out
+
+
+def xmr_payload_mutations(s, rng):
+    """Monero addresses: corrupt net byte / keys / payment id / length below the Keccak checksum and re-encode."""
+    from Crypto.Hash import keccak
+    out = []
+    try:
+        raw = Base58XmrDecoder.Decode(s)
+    except Exception:  # noqa
+        return out
+    pl = raw[:-4]
+
+    def mk(p):
+        return Base58XmrEncoder.Encode(p + keccak.new(digest_bits=256, data=p).digest()[:4])
+    var = [pl[:i] for i in (0, 1, 2, 32, 33, 34, 64, 65, 66, 72, 73)] + [pl + b"\x00", pl + bytes(8), pl + bytes(range(8)), pl[1:],
+           bytes([pl[0] ^ 1]) + pl[1:], b"\x13" + pl[1:], b"\x2a" + pl[1:], pl[:1] + b"\xff" * 32 + pl[33:], pl[:33] + b"\xff" * 32 + pl[65:],
+           pl[:1] + bytes(32) + pl[33:], pl[:1] + b"\x01" + bytes(31) + pl[33:], pl[:33] + b"\x02" + bytes(31) + pl[65:],
+           pl[:65] + bytes(8), pl[:65] + bytes(range(8)), pl[:65] + bytes(7), pl[:65] + bytes(9), pl[:1] + pl[33:65] + pl[1:33] + pl[65:]]
+    for _ in range(8):
+        i = rng.randrange(len(pl))
+        var.append(pl[:i] + bytes([pl[i] ^ (1 << rng.randrange(8))]) + pl[i + 1:])
+    for p in var:
+        out.append(mk(p))
+    return out
+
+
+def byron_hdpath_mutations(key, rng):
+    """DecryptHdPath: authenticated ciphertexts (ChaCha20-Poly1305 by pycryptodome, the library's nonce) of plaintexts that
+    are / are not the indefinite-length CBOR array of key indices."""
+    from Crypto.Cipher import ChaCha20_Poly1305
+    from bip_utils.addr.ada_byron_addr import AdaByronAddrConst
+
+    def enc(pt):
+        c = ChaCha20_Poly1305.new(key=key, nonce=AdaByronAddrConst.CHACHA20_POLY1305_NONCE)
+        c.update(AdaByronAddrConst.CHACHA20_POLY1305_ASSOC_DATA)
+        ct, tag = c.encrypt_and_digest(pt)
+        return ct + tag
+    pts = [b"", b"\x9f", b"\xff", b"\x9f\xff", b"\x9f\x00\xff", b"\x9f\x01\x02\xff", b"\x9f\x17\x18\x18\xff", b"\x9f\x18\xff", b"\x9f\x18\xff\xff",
+           b"\x9f\x19\x01\x00\xff", b"\x9f\x19\x01\xff", b"\x9f\x1a\x80\x00\x00\x00\x1a\xff\xff\xff\xff\xff", b"\x9f\x1b" + bytes(3) + b"\x01" + bytes(4) + b"\xff",
+           b"\x9f\x1b" + b"\xff" * 8 + b"\xff", b"\x9f\x1b\xff\xff", b"\x9f\x1c\xff", b"\x9f\x1f\xff", b"\x9f\x20\xff", b"\x9f\x37\xff", b"\x9f\x38\x00\xff",
+           b"\x9f\x3b" + b"\xff" * 8 + b"\xff", b"\x9f\x40\xff", b"\x9f\x41\x00\xff", b"\x9f\x60\xff", b"\x9f\x80\xff", b"\x9f\xa0\xff", b"\x9f\xc0\xff",
+           b"\x9f\xc4\xff", b"\x9f\xe0\xff", b"\x9f\xf4\xff", b"\x9f\xf5\xff", b"\x9f\xf6\xff", b"\x9f\xf7\xff", b"\x9f\xf8\xff", b"\x9f\xf9\xff",
+           b"\x9f\xfb\xff", b"\x9f\x9f\xff\xff", b"\x9f\x5f\xff", b"\x9f\x7f\xff", b"\x9f\xbf\xff", b"\x82\x01\x02", b"\x9f\x01\x02", b"\x01\x02\xff",
+           b"\x9f\x1a\x80\x00\x00\x00\x1a\x80\x00\x00\x01\xff", b"\x9f" + b"\x00" * 300 + b"\xff", b"\x9f\xff\xff", b"\x9f\xff\x00\xff", b"\x9f\x00\xff\x00"]
+    for _ in range(10):
+        n = rng.randrange(1, 8)
+        pts.append(b"\x9f" + bytes(rng.randrange(256) for _ in range(n)) + b"\xff")
+    out = []
+    for p in pts:
+        e = enc(p)
+        out.append(e)
+    e = enc(b"\x9f\x01\x02\xff")
+    out += [e[:-1], e + b"\x00", e[:-16], e[-16:], bytes([e[0] ^ 1]) + e[1:], e[:-1] + bytes([e[-1] ^ 1])]
+    return out
+
+
 # ---- mnemonics: word-level mutations with words at the extremes of the lists
 def _edge_words():
     import os
@@ -522,8 +690,9 @@ class Q:
 
 
 class M:
-    def __init__(self, model, impl=None, shape=None, merge=None):
-        self.model, self.impl, self.shape, self.merge = model, impl, shape, merge or {}
+    def __init__(self, model, impl=None, shape=None, merge=None, cap=None):
+        # cap = (quick, thorough): model comparisons beyond the junk list and the seeds (None: the generator's default)
+        self.model, self.impl, self.shape, self.merge, self.cap = model, impl, shape, merge or {}, cap
 
 
 def _props(mod):
@@ -727,7 +896,17 @@ def build_model_map():
     MM["SubstrateSr25519AddrDecoder.DecodeAddr"] = M(lambda m, x: m.call("addrtext.substrate_decode", 4, 0, x))
     MM["SplToken.GetAssociatedTokenAddress"] = M(
         lambda m, x: m.call("serbip.spl_get_ata", x, "EPjFWdd5AufqSSqeM2qN1xzybapC8G4wEGGkZwyTDt1v"))
+    first_wave = set(MM)
     build_model_map_c14b(MM)
+    # the second wave shares the time budget of the first: fewer sampled mutations per entry point; the models whose every
+    # call runs elliptic-curve multiplications in the reference arithmetic of harness/ecref.py (10-70 ms per call) fewer still
+    heavy = ("Monero.FromSeed", "Monero.FromPrivateSpendKey", "Monero.FromWatchOnly", "CardanoByronLegacy.FromSeed",
+             "Cip1852[CARDANO_ICARUS].FromSeed")
+    for n in set(MM) - first_wave:
+        if n in heavy or n.endswith("Bip32.FromSeed") or n.endswith("Bip32.FromSeedAndPath") or n.startswith("Bip32KholawEd25519.FromSeed"):
+            MM[n].cap = (10, 150)
+        else:
+            MM[n].cap = MM[n].cap or (60, 600)
     for n in MM:
         assert n in ENTRIES, "MODEL_MAP names an entry point that is not in the census: " + n
 
@@ -813,8 +992,7 @@ def build_model_map_c14b(MM):
             (lambda s_, sd_: lambda m, x: ff(m.call("c14b.kh_from_seed_and_path_str", s_, sd_, x)))(scheme, sd), shape="class")
     MM["CardanoByronLegacy.FromSeed"] = M(lambda m, x: ff(m.call("c14b.kh_from_seed", 2, x)), shape="class")
     # AdaByronAddrDecoder.DecryptHdPath(bytes, the wallet's HD path key)
-    hdkey = CardanoByronLegacy.FromSeed(SEED[:32]).HdPathKey()
-    MM["AdaByronAddrDecoder.DecryptHdPath"] = M(lambda m, x: m.call("c14b.byron_decrypt_path", hdkey, x), shape="class")
+    MM["AdaByronAddrDecoder.DecryptHdPath"] = M(lambda m, x: m.call("c14b.byron_decrypt_path", BYRON_HD_KEY, x), shape="class")
     # Bip44 / Bip49 / Bip84 / Bip86 / Cip1852 constructors: the coin's Bip32 class id and key net versions
     c03 = _props("C03")
     from bip_utils.bip.conf.bip44 import Bip44ConfGetter
@@ -898,7 +1076,7 @@ def generate(ctx):
     only = os.environ.get("VERIF_ONLY")
     names = sorted(n for n in ENTRIES if not only or any(o in n for o in only.split(",")))
     per = ctx.n(10, 600)
-    mcap = ctx.n(160, 900)          # model comparisons per entry point beyond the junk list and the seeds
+    mcap0 = ctx.n(160, 900)         # model comparisons per entry point beyond the junk list and the seeds (default)
     n_model = 0
     truncated = []
     for name in names:
@@ -915,6 +1093,10 @@ def generate(ctx):
                     d = payload_mutations(name, s, rng) + bech32_family_mutations(s, rng)
                     if "Mnemonic" in name or "SeedGenerator" in name:
                         d += mutate_words(s, rng)
+                    if name.startswith("AdaByronAddrDecoder.DecodeAddr"):
+                        d += byron_payload_mutations(s, rng)
+                    if name.startswith("Xmr"):
+                        d += xmr_payload_mutations(s, rng)
                     inputs += d
                     deep += d
         else:
@@ -922,6 +1104,9 @@ def generate(ctx):
             for b in e["seeds"]:
                 inputs.append(b)
                 inputs += mutate_bytes(b, rng, per)
+            if name == "AdaByronAddrDecoder.DecryptHdPath":
+                deep = byron_hdpath_mutations(BYRON_HD_KEY, rng)
+                inputs += deep
         seen, uniq = set(), []
         for x in inputs:
             if x not in seen:
@@ -931,6 +1116,7 @@ def generate(ctx):
         junk = set(JUNK_STR) | set(JUNK_BYTES)
         fixed = junk | set(e["seeds"])
         rest = [x for x in uniq if x not in fixed]
+        mcap = ctx.n(*MODEL_MAP[name].cap) if (name in MODEL_MAP and MODEL_MAP[name].cap) else mcap0
         if e["slow"]:
             sample = set(e["seeds"]) | set(rest[:3]) | {"", "a", "z" * 11}      # scrypt per structurally valid input
         elif len(rest) <= mcap:
@@ -988,3 +1174,120 @@ def wif_net_ver_len_replay():
     except TypeError as ex:
         return "WifDecoder.Decode(%r, b'') raises TypeError (%s)" % (WIF_VALID, ex)
     return "WifDecoder.Decode(%r, b'') returned" % WIF_VALID
+
+
+# ---- AdaByronAddrDecoder.DecodeAddr: the two defects reached by the CBOR-level mutation stream
+BYRON_FNS = ("AdaByronAddrDecoder.DecodeAddr", "AdaByronAddrDecoder.DecodeAddr[legacy]",
+             "model:AdaByronAddrDecoder.DecodeAddr", "model:AdaByronAddrDecoder.DecodeAddr[legacy]")
+
+
+def _byron_classify(addr):
+    """Which defect of the Byron decoder (if any) an address string reaches, following the library's own order of checks:
+    'attrs' (a field that must be a byte string is something else), 'cbor2' (cbor2.loads itself raises something that
+    is neither CBORDecodeError nor ValueError), None (rejected by a check that exists, or accepted)."""
+    import binascii
+    import cbor2
+
+    def loads(b):
+        try:
+            return "ok", cbor2.loads(b)
+        except (cbor2.CBORDecodeError, ValueError, RecursionError):
+            return "rejected", None
+        except Exception:  # noqa
+            return "cbor2", None
+    try:
+        raw = Base58Decoder.Decode(addr)
+    except Exception:  # noqa
+        return None
+    k, o = loads(raw)
+    if k != "ok":
+        return "cbor2" if k == "cbor2" else None
+    if not (isinstance(o, (list, tuple)) and len(o) == 2 and isinstance(o[0], cbor2.CBORTag) and isinstance(o[1], int)):
+        return None
+    if o[0].tag != 24:
+        return None
+    val = o[0].value
+    if not isinstance(val, bytes):
+        return None if isinstance(val, str) else "attrs"      # Crc32 of a str is computed on its UTF-8 encoding
+    if binascii.crc32(val) != o[1]:
+        return None
+    k, p = loads(val)
+    if k != "ok":
+        return "cbor2" if k == "cbor2" else None
+    if not (isinstance(p, (list, tuple)) and len(p) == 3 and isinstance(p[0], bytes) and isinstance(p[1], dict)
+            and isinstance(p[2], int)) or len(p[0]) != 28:
+        return None
+    attrs = p[1]
+    if len(attrs) > 2 or (len(attrs) != 0 and 1 not in attrs and 2 not in attrs):
+        return None
+    v1 = None
+    for key in (1, 2):
+        if key in attrs:
+            if not isinstance(attrs[key], bytes):
+                return "attrs"
+            k, v = loads(attrs[key])
+            if k != "ok":
+                return "cbor2" if k == "cbor2" else None
+            if key == 1:
+                v1 = v
+    if p[2] != 0:               # AdaByronAddrTypes(type) == PUBLIC_KEY is checked before the concatenation
+        return None
+    return "attrs" if (v1 is not None and not isinstance(v1, bytes)) else None
+
+
+def _observed_escape(record):
+    if record.get("kind") == "direct":
+        return record.get("what", "").startswith("escapes with")
+    imp = record.get("impl", {})
+    return "err" in imp and imp["err"] not in IN_FAMILY
+
+
+def byron_attrs_types(fn, args, record):
+    """C14-BYRON-ATTRS: well-formed CBOR with a valid CRC whose tagged value / attribute value / attribute-1 content is
+    not a byte string -> TypeError."""
+    return fn in BYRON_FNS and _observed_escape(record) and "TypeError" in str(record) and _byron_classify(args[0]) == "attrs"
+
+
+BYRON_ATTRS_INPUTS = [
+    ("attribute value 5", lambda: byron_addr([bytes(28), {1: 5}, 0])),
+    ("attribute 1 = CBOR text string", lambda: byron_addr([bytes(28), {1: cb("xx")}, 0])),
+    ("tag-24 value 7", lambda: byron_addr(b"", outer=[CTag(24, 7), 0])),
+]
+
+
+def byron_attrs_types_replay():
+    bad = []
+    for what, mk in BYRON_ATTRS_INPUTS:
+        a = mk()
+        try:
+            AdaByronAddrDecoder.DecodeAddr(a)
+        except ValueError:
+            continue
+        except TypeError as ex:
+            bad.append("%s: DecodeAddr(%r) raises TypeError (%s)" % (what, a, str(ex)[:50]))
+            continue
+        bad.append("%s: DecodeAddr(%r) returned" % (what, a))
+    return "; ".join(bad) if bad else None
+
+
+def byron_cbor2_exc(fn, args, record):
+    """C14-BYRON-CBOR2-EXC: cbor2.loads raises TypeError / OverflowError / a decimal exception (ill-typed decimal
+    fraction or bigfloat tag) and the decoder only translates CBORDecodeError."""
+    return fn in BYRON_FNS and _observed_escape(record) and _byron_classify(args[0]) == "cbor2"
+
+
+BYRON_CBOR2_INPUTS = ["62LEus", "4i5esh9TA7i2JcbyZ", "PAsvD1i"]   # Base58 of c48200f6, c4821bffffffffffffffff00, c482006161
+
+
+def byron_cbor2_exc_replay():
+    bad = []
+    for a in BYRON_CBOR2_INPUTS:
+        try:
+            AdaByronAddrDecoder.DecodeAddr(a)
+        except ValueError:
+            continue
+        except Exception as ex:  # noqa
+            bad.append("DecodeAddr(%r) raises %s" % (a, type(ex).__name__))
+            continue
+        bad.append("DecodeAddr(%r) returned" % a)
+    return "; ".join(bad) if bad else None
